@@ -548,6 +548,12 @@ func (lf *logFile) open(path string, flags int, fsize int64) error {
 		}
 		vhook.IO("mwrite-header", path, 0, vlogHeaderSize)
 		lf.size.Store(vlogHeaderSize)
+		// Persist the directory entry of the new log file. Its contents are synced
+		// by the callers (SyncWrites, rotation), but without the directory entry a
+		// power failure loses the whole file and with it every synced record.
+		if err := syncDir(filepath.Dir(path)); err != nil {
+			return y.Wrapf(err, "while syncing directory of new file: %s", path)
+		}
 
 	} else if ferr != nil {
 		return y.Wrapf(ferr, "while opening file: %s", path)
